@@ -362,3 +362,91 @@ def findInnermost (file : Ast) (off : Nat) : Option (Option Nat) :=
   (innerPlan file).map (searchI off)
 
 end Abra.SpanTree
+
+/-! ### executable checks of the hypotheses of the identifier-search theorem (`Nested`, `CutOK`, `Unique`)
+    and of the innermost-search theorem (`NestedI`); their soundness is proved in
+    `AbraProofs/Lemmas/SpanTreeWF.lean`, the driver reports them per tree -/
+namespace Abra.SpanTree
+
+mutual
+/-- every identifier leaf as (lo, hi, id) -/
+def idents : STree → List (Nat × Nat × Nat)
+  | .ident lo hi id => [(lo, hi, id)]
+  | .node _ _ kids => identsL kids
+def identsL : List STree → List (Nat × Nat × Nat)
+  | [] => []
+  | k :: ks => idents k ++ identsL ks
+end
+
+/-- an (empty or) inside-the-span identifier -/
+def within (s : Span) (e : Nat × Nat × Nat) : Bool :=
+  match s with
+  | none => true
+  | some (lo, hi) => decide (e.2.1 ≤ e.1) || (decide (lo ≤ e.1) && decide (e.2.1 ≤ hi))
+
+mutual
+def nestedB : STree → Bool
+  | .ident _ _ _ => true
+  | .node span _ kids => (identsL kids).all (within span) && nestedBL kids
+def nestedBL : List STree → Bool
+  | [] => true
+  | k :: ks => nestedB k && nestedBL ks
+end
+
+def disjointFrom (s : Nat × Nat) (e : Nat × Nat × Nat) : Bool :=
+  decide (e.2.1 ≤ e.1) || decide (e.2.1 ≤ s.1) || decide (s.2 ≤ e.1)
+
+def cutSpan : STree → Option (Nat × Nat)
+  | .node (some s) true _ => some s
+  | _ => none
+
+mutual
+def cutB : STree → Bool
+  | .ident _ _ _ => true
+  | .node _ _ kids => cutBL kids
+def cutBL : List STree → Bool
+  | [] => true
+  | k :: ks =>
+    cutB k && (match cutSpan k with
+      | some s => (identsL ks).all (disjointFrom s)
+      | none => true) && cutBL ks
+end
+
+def overlapOK (a b : Nat × Nat × Nat) : Bool :=
+  decide (a.2.1 ≤ a.1) || decide (b.2.1 ≤ b.1) || decide (a.2.1 ≤ b.1) || decide (b.2.1 ≤ a.1) || a.2.2 == b.2.2
+
+def uniqueB (t : STree) : Bool := (idents t).all (fun a => (idents t).all (fun b => overlapOK a b))
+
+/-- all three hypotheses of `C35_search_spec` -/
+def wfB (t : STree) : Bool := nestedB t && cutB t && uniqueB t
+
+mutual
+/-- every node that can answer as (span, id) -/
+def cands : ITree → List (Span × Nat)
+  | .leaf lo hi id => [(some (lo, hi), id)]
+  | .node span self kids =>
+    (match self with
+      | some id => [(span, id)]
+      | none => []) ++ candsL kids
+def candsL : List ITree → List (Span × Nat)
+  | [] => []
+  | k :: ks => cands k ++ candsL ks
+end
+
+/-- a candidate that is empty or inside the span -/
+def withinI (s : Span) (c : Span × Nat) : Bool :=
+  match s, c.1 with
+  | none, _ => true
+  | some _, none => false
+  | some (lo, hi), some (l, h) => decide (h ≤ l) || (decide (lo ≤ l) && decide (h ≤ hi))
+
+mutual
+def nestedIB : ITree → Bool
+  | .leaf _ _ _ => true
+  | .node span _ kids => (candsL kids).all (withinI span) && nestedIBL kids
+def nestedIBL : List ITree → Bool
+  | [] => true
+  | k :: ks => nestedIB k && nestedIBL ks
+end
+
+end Abra.SpanTree
